@@ -61,6 +61,13 @@ package annotatelexer
 //@ func (*AnnotateLexer).NextFieldName
 //@   sweep C01
 //@ end
+// C16: the manual lets every annotation keyword (fun, table, type, ..., const, enum) double as a field or parameter
+// name.  The keyword table `keywords` is the definition of "keyword"; a name is refused only when the token is not an
+// entry of that table carrying its own kind.
+//@ func (*AnnotateLexer).NextFieldName
+//@   props C16
+//@   at call ErrorPrint#0 before assert[only-a-non-keyword-is-refused-as-field-name] kind != ATokenKwIdentifier && !(has(keywords, token) && keywords[token] == kind)
+//@ end
 
 //@ func (*AnnotateLexer).NextTypeIdentifier
 //@   sweep C01
@@ -68,6 +75,10 @@ package annotatelexer
 
 //@ func (*AnnotateLexer).NextParamName
 //@   sweep C01
+//@ end
+//@ func (*AnnotateLexer).NextParamName
+//@   props C16
+//@   at call ErrorPrint#0 before assert[only-a-non-keyword-is-refused-as-parameter-name] kind != ATokenKwIdentifier && kind != ATokenVararg && !(has(keywords, token) && keywords[token] == kind)
 //@ end
 
 //@ func (*AnnotateLexer).scanShortString
